@@ -870,3 +870,33 @@ def r02_19_tag_checks_read_the_document(ctx, rid='R02.19'):
                 'never fail, and collections with any explicit tag (!!set, !!python/tuple, !custom) are accepted as plain lists / dicts'
                 % (norm(early[0])[:50] if early else '', norm(t.ast)[:50]))
     r.done()
+
+
+def r16_8_conversion_errors(ctx, rid='R16.8'):
+    """require_attribute_value / _not promise RecognitionError or a normal return. They compare with `Node.get_value()`, whose int and
+    float arms hand the text to PyYAML's constructors: for an explicitly tagged scalar whose text is not a number (`x: !!int abc`)
+    those raise ValueError. The comparison has to run under a handler that turns that into the documented outcome."""
+    P = ctx.P
+    r = ctx.rule(rid, 'a conversion error of get_value() in require_attribute_value / require_attribute_value_not is converted into '
+                      'the documented outcome (RecognitionError / not equal)', floor=2)
+    g = fn(P, H.NODE + 'get_value')
+    raising = [c for c in g.walk() if isinstance(c, ast.Call) and call_name(c) in ('construct_yaml_int', 'construct_yaml_float', 'int', 'float')]
+    protected_inside = all(any(t for t in g.cfg.enclosing_handlers(c)) for c in raising) if raising else True
+    for name in ('require_attribute_value', 'require_attribute_value_not'):
+        f = fn(P, H.UNK + name)
+        calls = [c for c in f.walk() if isinstance(c, ast.Call) and isinstance(c.func, ast.Attribute) and c.func.attr == 'get_value' and f.live(c)]
+        if not calls:
+            r.ok('%s does not call get_value()' % name)
+        for c in calls:
+            ok = protected_inside
+            for t in f.cfg.enclosing_handlers(c):
+                for h in t.handlers:
+                    names = f.cfg._handler_names(h)
+                    if names is None or set(names) & {'ValueError', 'Exception', 'BaseException'}:
+                        conv, _ = S.handler_converts(f, h)
+                        ok = ok or conv or not any(isinstance(x, ast.Raise) and x.exc is None for x in ast.walk(h))
+            r.check(ok, '%s: get_value() runs under a handler for ValueError' % name, f.key('get_value-conversion-error'), f.loc(c),
+                    '%s compares with get_value(), which raises ValueError for an explicitly tagged scalar whose text is not a number '
+                    '(`x: !!int abc`, `x: !!float abc`): the helper leaves with ValueError instead of RecognitionError / a normal return, '
+                    'and from inside a _yatiml_recognize hook that ValueError escapes the load function' % name)
+    r.done()
